@@ -8,6 +8,7 @@ fn main() {
         "info" => {
             println!("{}", serde_json::json!({"hooks": trace::HAS_HOOKS}));
         }
+        "bytes-fidelity" => bytesfid::main(&rest),
         "cache-replay" => replay::main(&rest),
         "rid-replay" => c18::replay(&rest),
         "rid-conc" => c18::concurrent(&rest),
